@@ -331,7 +331,12 @@ func runProgram(pr program) (res result, hung bool, stacks string, herr error) {
 	if p.PeerName == "sub" {
 		_ = P.SetOption(mangos.OptionSubscribe, "")
 	}
-	ev := fixture.Hook(S)
+	// the Attaching callback takes a moment, so accept loops are busy now and then
+	ev := fixture.HookWith(S, func(e mangos.PipeEvent, _ mangos.Pipe) {
+		if e == mangos.PipeEventAttaching {
+			time.Sleep(300 * time.Microsecond)
+		}
+	})
 	addr, _, err := fixture.Listen(S, pr.Tr)
 	if err != nil {
 		return res, false, "", err
@@ -341,6 +346,15 @@ func runProgram(pr program) (res result, hung bool, stacks string, herr error) {
 	}
 	if !ev.WaitAttached(1, 5*time.Second) {
 		return res, false, "", fmt.Errorf("attach timeout")
+	}
+	// two more listening addresses on the in-process transport: concurrent dialers to different
+	// addresses share that transport's global state
+	extra := []string{addr}
+	for i := 0; i < 2; i++ {
+		a := fixture.Addr("inproc")
+		if err := S.Listen(a); err == nil {
+			extra = append(extra, a)
+		}
 	}
 	opts := map[string]optSpec{}
 	for _, o := range optionsFor(p.Name) {
@@ -567,13 +581,20 @@ func runProgram(pr program) (res result, hung bool, stacks string, herr error) {
 					}
 				case "newpeer":
 					// another peer connects while options change: AddPipe runs concurrently
-					np := fixture.New(p.PeerName)
-					if _, err := fixture.Dial(np, addr); err == nil {
-						time.Sleep(200 * time.Microsecond)
+					// two peers dial two different addresses of the socket at the same moment
+					var dwg sync.WaitGroup
+					for k := 0; k < 2; k++ {
+						np := fixture.New(p.PeerName)
+						mu.Lock()
+						eps = append(eps, np)
+						mu.Unlock()
+						dwg.Add(1)
+						go func(np mangos.Socket, a string) {
+							defer dwg.Done()
+							_, _ = fixture.Dial(np, a)
+						}(np, extra[(wi+i+k)%len(extra)])
 					}
-					mu.Lock()
-					eps = append(eps, np)
-					mu.Unlock()
+					dwg.Wait()
 				case "close":
 					record(o.Kind, S.Close())
 				}
@@ -667,4 +688,106 @@ func TestC11(t *testing.T) {
 		}
 		stats.Sample(map[string]interface{}{"ctor": pr.Ctor, "transport": pr.Tr, "workers": len(pr.Workers), "first_worker": pr.Workers[0]})
 	})
+}
+
+// TestC11ParkedDials: several sockets listen on different addresses of one transport; their accept
+// loops are held inside Attaching callbacks while dialers for each address queue up; the loops are
+// then released in a drawn order.  Every Dial must return once its own listener accepts again —
+// concurrent dialers must not steal each other's wake-ups.
+func TestC11ParkedDials(t *testing.T) {
+	stats.ScaledChecks(8, 6, func() {
+		rapid.Check(t, func(t *rapid.T) {
+			tr := rapid.SampledFrom([]string{"inproc", "inproc", "inproc", "tcp", "ipc"}).Draw(t, "transport")
+			nl := rapid.IntRange(2, 4).Draw(t, "listeners")
+			perAddr := rapid.IntRange(1, 3).Draw(t, "dialersPerAddress")
+			order := rapid.Permutation(seq(nl)).Draw(t, "releaseOrder")
+			parkOrder := rapid.Permutation(seq(nl*perAddr)).Draw(t, "parkOrder")
+			doc := map[string]interface{}{"test": "TestC11ParkedDials", "transport": tr, "listeners": nl, "dialersPerAddress": perAddr, "releaseOrder": order, "parkOrder": parkOrder, "rseed": os.Getenv("VERIF_RSEED")}
+			type lst struct {
+				s    mangos.Socket
+				addr string
+				hold chan struct{}
+				ev   *fixture.Events
+			}
+			var ls []*lst
+			var all []mangos.Socket
+			defer func() {
+				for _, l := range ls {
+					select {
+					case <-l.hold:
+					default:
+						close(l.hold)
+					}
+				}
+				for _, s := range all {
+					_ = s.Close()
+				}
+			}()
+			for i := 0; i < nl; i++ {
+				l := &lst{s: fixture.New("bus"), hold: make(chan struct{})}
+				all = append(all, l.s)
+				hold := l.hold
+				l.ev = fixture.HookWith(l.s, func(e mangos.PipeEvent, _ mangos.Pipe) {
+					if e == mangos.PipeEventAttaching {
+						<-hold
+					}
+				})
+				a, _, err := fixture.Listen(l.s, tr)
+				if err != nil {
+					t.Skip("port busy")
+				}
+				l.addr = a
+				ls = append(ls, l)
+				// the first connection occupies the accept loop (its Attaching callback blocks)
+				first := fixture.New("bus")
+				all = append(all, first)
+				go func() { _, _ = fixture.Dial(first, a) }()
+			}
+			time.Sleep(5 * time.Millisecond)
+			// park the dialers
+			type dres struct {
+				li  int
+				err error
+			}
+			results := make(chan dres, nl*perAddr)
+			for _, k := range parkOrder {
+				li := k % nl
+				d := fixture.New("bus")
+				all = append(all, d)
+				go func(li int) {
+					_, err := fixture.Dial(d, ls[li].addr)
+					results <- dres{li, err}
+				}(li)
+				time.Sleep(2 * time.Millisecond)
+			}
+			// release the listeners one by one; after each release its own dialers must get through
+			got := map[int]int{}
+			for _, li := range order {
+				close(ls[li].hold)
+				deadline := time.After(5 * time.Second)
+				for got[li] < perAddr {
+					select {
+					case r := <-results:
+						got[r.li]++
+					case <-deadline:
+						atomic.StoreInt32(&realViolation, 1)
+						stats.Fail(t, "C11:deadlock:parked-dial:"+tr, doc, "%d of %d Dial calls to a %s listener are still blocked 5 s after that listener resumed accepting (listeners %d, release order %v): concurrent dialers to different addresses interfere", perAddr-got[li], perAddr, tr, nl, order)
+						return
+					}
+				}
+			}
+			stats.Eval()
+			stats.Class("parked_dials:" + tr)
+			stats.NonTrivial(fmt.Sprintf("P|%s|%d|%d|%v|%v", tr, nl, perAddr, order, parkOrder))
+			stats.Sample(doc)
+		})
+	})
+}
+
+func seq(n int) []int {
+	s := make([]int, n)
+	for i := range s {
+		s[i] = i
+	}
+	return s
 }
